@@ -2,6 +2,7 @@ import Anytree.Drv.Iter
 import Anytree.Drv.Forest
 import Anytree.Drv.Nav
 import Anytree.Drv.Walk
+import Anytree.Drv.Export
 /-!
 Line-protocol driver: one JSON case per input line, one JSON object per output line:
 `{"mirror": <what the model of the code computes>, "spec": <what the specification demands>}`
@@ -17,6 +18,7 @@ def dispatch (j : Json) : R (Json × Json) := do
   | "nav" => runNav j
   | "walk" => runWalk j
   | "search" => runSearch j
+  | "export" => runExport j
   | f => throw s!"unknown family {f}"
 
 def handle (line : String) : String :=
